@@ -7,6 +7,7 @@ import subprocess
 import time
 
 from . import rtok
+from .gen import parse_tags as gen_parse_tags
 
 UNDECIDED_PATTERNS = (
     "Resource limit (rlimit) exceeded",
@@ -112,7 +113,20 @@ def run_verus(unit, path, rlimit=None, timeout=1800, extra=None):
         clause_info = None
         text = prim[0]["text"][0]["text"].strip() if prim and prim[0].get("text") else ""
         if kind in ("post", "inv_init", "inv_step", "assert", "decreases"):
-            clause_info = info
+            clause_info = dict(info)
+            if prim:
+                # a clause may span several lines: union of the tags of all its lines, first label wins
+                props, label = [], None
+                for ln_no in range(prim[0]["line_start"], prim[0]["line_end"] + 1):
+                    li = unit.linemap[ln_no - 1] if 0 < ln_no <= len(unit.linemap) else {}
+                    tagged, lab = gen_parse_tags(unit.out_lines[ln_no - 1]) if 0 < ln_no <= len(unit.out_lines) else (None, None)
+                    if tagged:
+                        props += [t for t in tagged if t not in props]
+                    label = label or lab
+                if props:
+                    clause_info["props"] = props
+                if label:
+                    clause_info["label"] = label
             if kind == "post" and info.get("kind") == "verbatim":
                 # postcondition declared in a trait (prelude): attribute to the function whose body ends at the secondary span
                 for s in sec:
